@@ -202,6 +202,11 @@ func (e *env) barOptions(i int) (mpb.BarFiller, []mpb.BarOption) {
 		filler = &probeFiller{bar: i, f: e.f}
 	}
 	var opts []mpb.BarOption
+	// a pass-through middleware: it runs on the container's goroutine while the Add request is served
+	opts = append(opts, mpb.BarFillerMiddleware(func(base mpb.BarFiller) mpb.BarFiller {
+		simrt.Log(simrt.Entry{Kind: EvServed, ID: i})
+		return base
+	}))
 	if bs.Filler != FillProbe {
 		opts = append(opts, mpb.BarFillerMiddleware(func(base mpb.BarFiller) mpb.BarFiller {
 			return &probeFiller{bar: i, base: base, f: e.f}
@@ -447,6 +452,8 @@ func (e *env) do(client, idx int, op Op) {
 			close(e.delayCh)
 			r = 1
 		}
+	case OpWait:
+		e.p.Wait() // a second waiter (main has its own Wait)
 	case OpCancel:
 		e.cancel()
 	case OpShutdown:
